@@ -45,12 +45,17 @@ out.append('### 0.5 Seeded changes (independent sub-agents, property text only) 
 res = {}
 if os.path.exists(V + '/seeded/RESULTS.json'):
     res = json.load(open(V + '/seeded/RESULTS.json'))
+notes = json.load(open(V + '/seeded/NOTES.json')) if os.path.exists(V + '/seeded/NOTES.json') else {}
 out.append('| seed | property | change | needs | caught by |')
 out.append('|---|---|---|---|---|')
 for d in sorted(glob.glob(V + '/seeded/*/meta.json')):
     name = os.path.basename(os.path.dirname(d))
     m = json.load(open(d))
-    r = res.get(name, {})
+    r = dict(res.get(name, {}))
+    if name in notes and 'MISSED' in r.get('caught_by', ''):
+        r['caught_by'] = 'MISSED - ' + notes[name]
+    elif name in notes:
+        r['caught_by'] = r.get('caught_by', '') + ' [note: ' + notes[name] + ']'
     out.append('| %s | %s | %s | %s | %s |' % (name, m.get('property', ''), str(m.get('summary', ''))[:260].replace('|', '/'),
                str(m.get('needs', ''))[:200].replace('|', '/'), r.get('caught_by', 'not run yet').replace('|', '/')))
 out.append('')
